@@ -87,6 +87,10 @@ def stepObs (r : RState) (o : Obs) : Except String RState :=
   | some (.ev ("ORACLE" :: _)) | some (.ev ("stats" :: _)) => .ok r
   | some (.spawn _) | some (.join _) | some .exit | some (.race _) => .ok r
   | some a =>
+    -- a wake-up nobody performed (EINTR / spurious return of futex_wait) is the model's `Step.spuriousWake`
+    let s : State := match a, s.pc t with
+      | .fwoke _ _ false, .wait x (.asleep _) => s.setPc t (.wait x .woken)
+      | _, _ => s
     let inp : Inp := match a with
       | .cas _ _ true _ _ e _ ok obs => { spurious := !ok && e == obs }
       | .ev ["clock", n] => { now := n.toNat?.getD 0 }
